@@ -38,7 +38,7 @@ if os.path.exists(p):
             if v.get('keys'):
                 key = v['keys'][0].split(' :: ')[0].replace('key=', '')
                 break
-        out.append('| %s | %s | %s | %s | `%s` |' % (r['id'], r.get('property', ''), meta.get('needs_to_manifest', '').replace('|', '\\|'), ' '.join('%s (rc=%s, %ss)' % (k, v['rc'], v['wall_s']) for k, v in r.get('checks', {}).items()), key[:100]))
+        out.append('| %s | %s | %s | %s | `%s` |' % (r['id'], r.get('property', ''), meta.get('needs_to_manifest', '').replace('|', '\\|'), ' '.join('%s (rc=%s, %ss)' % (k, v['rc'], v['wall_s']) for k, v in r.get('checks', {}).items()) + (' — missed by the first version of the check, which was then strengthened (history in meta.json)' if meta.get('history') else ''), key[:100]))
     out.append('')
 text = '\n'.join(out)
 dp = os.path.join(V, 'DESIGN.md')
